@@ -101,8 +101,24 @@ fn float_req(k: &mut Sink, text: &[u8]) {
     let in_form = radix_form("0x", u8::is_ascii_hexdigit) || radix_form("0X", u8::is_ascii_hexdigit)
         || radix_form("0b", |c| *c == b'0' || *c == b'1') || radix_form("0B", |c| *c == b'0' || *c == b'1')
         || radix_form("0", |c| (b'0'..=b'7').contains(c));
-    if in_form && r.is_none() {
-        k.fail(format!("[sig=parse_float:radix-form-above-u64] parse_float({s:?}) returns None for a text of the hexadecimal/binary/octal lexical form"));
+    if in_form {
+        // independent value: digits accumulated in u128 (exact below 2^128), converted by the hardware (correctly rounded)
+        let (digits, radix) = if let Some(d) = s.strip_prefix("0x").or(s.strip_prefix("0X")) { (d, 16u128) } else if let Some(d) = s.strip_prefix("0b").or(s.strip_prefix("0B")) { (d, 2) } else { (&s[1..], 8) };
+        let mut v: Option<u128> = Some(0);
+        for c in digits.bytes() {
+            let d = (c as char).to_digit(16).unwrap() as u128;
+            v = v.and_then(|x| x.checked_mul(radix)).and_then(|x| x.checked_add(d));
+        }
+        match (v, r) {
+            (Some(x), Some(got)) if x <= u64::MAX as u128 => {
+                if got.to_bits() != (x as u64 as f64).to_bits() {
+                    k.fail(format!("parse_float({s:?}) = {got:e} (bits {:016x}) but the text denotes {x}, whose nearest double has bits {:016x}", got.to_bits(), (x as u64 as f64).to_bits()));
+                }
+            }
+            (Some(x), None) if x <= u64::MAX as u128 => k.fail(format!("parse_float({s:?}) returns None but the text denotes {x}, which fits")),
+            (_, None) => k.fail(format!("[sig=parse_float:radix-form-above-u64] parse_float({s:?}) returns None for a text of the hexadecimal/binary/octal lexical form")),
+            _ => {}
+        }
     }
     let b = cd.parse_bool();
     k.put(&format!("parse_bool {}", hex(text)), &match b { Some(v) => format!("ok {v}"), None => "none".into() }, false);
